@@ -4,6 +4,7 @@ from __future__ import annotations
 import ast
 import re
 
+from . import c17_interp as I
 from . import e2_formula as F
 from . import ode_spaces as O
 from .core import AnchorError, Unsupported
@@ -136,44 +137,167 @@ def documented_newmark(ctx):
     return out, doc
 
 
-def _precalcs(ctx, m_none):
-    fn = ctx.src.func(NM, "SolveNewmark._newmark_precalcs")
+# ---------------------------------------------------------------------------
+# evaluation of the solver source on a small symbolic system (verifier/c17_interp.py): 2 dof, NT time steps, NZ outputs per nonlinear
+# function.  One member of the property's quantifier domain, with symbolic entries: an obligation that fails here fails for the property.
+N, NT, NZ = 2, 5, 2
+H = F.sym("h")
+UNC_F, CPL = True, False
+# exceptions the modelled numpy/python semantics raise for a genuinely failing operation (shape mismatch, bad index, singular solve ...)
+FAIL_EXC = {"ValueError", "IndexError", "TypeError", "KeyError", "LinAlgError", "StopIteration", "RuntimeError", "NotImplementedError"}
 
-    def cond(test, ev):
-        t = utext(test)
-        return {"self.ksize==0": False, "self.misNone": m_none, "self.unc": True}.get(t)
 
-    env = {"self.h": h, "self.b": B_, "self.k": K_}
-    if not m_none:
-        env["self.m"] = M_
-    ev = Evaluator(env=env, cond=cond, src=ctx.src)
-    ev.run(fn.body)
-    return ev, fn
+def vec(name, n=N):
+    return I.NDArr.syms(name, (n,))
+
+
+def mat(name, r=N, c=N):
+    return I.NDArr.syms(name, (r, c))
+
+
+def _guard(ctx, tag, where, thunk):
+    """run an evaluation; a Python exception of the analysed code on a valid configuration is a violation, a construct outside the
+    interpreter's subset an analysis error"""
+    try:
+        return True, thunk()
+    except I.PyRaise as e:
+        if e.name in FAIL_EXC:
+            ctx.fail(f"{tag}: runs on a valid configuration without raising", where, str(e))
+        else:
+            ctx.error(f"{tag}: evaluation", where, str(e))
+    except Unsupported as e:
+        ctx.error(f"{tag}: evaluation", where, str(e))
+    return False, None
+
+
+def _eq(a, b):
+    return a is not None and b is not None and I.arr_equal(a, b)
+
+
+def _show(x, n=300):
+    s = repr(x)
+    return s if len(s) <= n else s[:n] + "..."
+
+
+class NLTerms:
+    """two nonlinear force terms {key: (function, transform, optional arguments)}; the functions are opaque: every call is recorded with a
+    snapshot of the displacement array it sees and returns the symbols z<k>_<j>"""
+
+    def __init__(self, with_T=True):
+        self.funcs = [I.Opaque("nl0"), I.Opaque("nl1")]
+        self.keys = ["k0", "k1"]
+        self.T = [mat("T0", N, NZ), mat("T1", N, NZ)]
+        self.optargs = I.Opaque("optarg1")
+        self.kwargs = [{}, {"opt": self.optargs}]
+        self.calls = []      # dict(k, j, args, kwargs, snap)
+
+    def nl_dct(self):
+        return {key: (f, T, dict(kw)) for key, f, T, kw in zip(self.keys, self.funcs, self.T, self.kwargs)}
+
+    def z(self, k, j):
+        return vec(f"z{k}_{j}", NZ)
+
+    def hook(self, it, op, args, kwargs, node):
+        if op not in self.funcs:
+            raise Unsupported(f"call of {op.name} (no model)")
+        k = self.funcs.index(op)
+        j = args[1] if len(args) > 1 else None
+        try:
+            j = I._as_int(j)
+        except Unsupported:
+            j = None
+        snap = args[0].copy() if args and isinstance(args[0], I.NDArr) else None
+        self.calls.append({"k": k, "j": j, "args": list(args), "kwargs": dict(kwargs), "snap": snap, "seq": it.seq})
+        if j is None:
+            return vec(f"zbad{len(self.calls)}", NZ)
+        return self.z(k, j)
+
+    def force(self, j):
+        """N_j = sum_k T_k z_k(d, j, h)  (the transforms are already multiplied by inv(A))"""
+        tot = None
+        for k in range(2):
+            t = self.T[k] @ self.z(k, j)
+            tot = t if tot is None else tot + t
+        return tot
+
+    def call_ok(self, c, h=H):
+        """documented call convention func(d, j, h, **optargs)"""
+        return len(c["args"]) == 3 and c["snap"] is not None and I.s_equal(c["args"][2], h) and \
+            set(c["kwargs"]) == set(self.kwargs[c["k"]]) and all(c["kwargs"][x] is self.kwargs[c["k"]][x] for x in c["kwargs"])
+
+
+def _nm_self(it, unc, terms=None, **extra):
+    cls = it.cls(NM, "SolveNewmark")
+    me = I.Obj(cls, "self", n=N, ksize=N, rfsize=0, nonrfsz=N, elsize=N, rbsize=0, nonrf=slice(None), kdof=slice(None), rf=slice(0, 0),
+               unc=unc, h=H, pc=True, systype=I.FLOAT, slices=True, pre_eig=False, nonlin_terms=0)
+    if unc:
+        me.attrs.update(k=vec("K"), b=vec("B"), Ad=vec("Ad"), A1=vec("A1"), A0=vec("A0"))
+    else:
+        me.attrs.update(k=mat("K"), b=mat("B"), Ad=I.LU(inv=mat("iA")), A1=mat("A1"), A0=mat("A0"))
+    if terms is not None:
+        me.attrs.update(nonlin_terms=2, nl_dct=terms.nl_dct())
+    me.attrs.update(extra)
+    return me
+
+
+def _mul(unc):
+    return (lambda a, x: a * x) if unc else (lambda a, x: a @ x)
+
+
+def _inv_a(me, unc):
+    if unc:
+        return lambda x: x / (me.attrs["Ad"] if x.ndim == 1 else me.attrs["Ad"][:, None])
+    return lambda x: me.attrs["Ad"].inv() @ x
+
+
+def _cfg(unc, nonlin):
+    return f"{'uncoupled' if unc else 'coupled'}, {'nonlinear' if nonlin else 'linear'}"
+
+
+# ---------------------------------------------------------------------------
+def _doc_entry(formula, mm, bb, kk):
+    return formula.subs({"M": mm, "B": bb, "K": kk})
 
 
 def r2_code_equals_documentation(ctx):
     docs, doc = documented_newmark(ctx)
-    for m_none in (False, True):
-        ev, fn = _precalcs(ctx, m_none)
-        mm = F.const(1) if m_none else M_
-        tag = f"_newmark_precalcs (m {'None' if m_none else 'given'})"
-        A, A1, A0 = ev.env.get("A"), ev.env.get("A1"), ev.env.get("A0")
-        for nm, val, key in (("A", A, "A"), ("A1", A1, "A_1"), ("A0", A0, "A_0")):
-            if val is None or is_unknown(val):
-                ctx.error(f"{tag}: {nm}", fn, repr(val))
-                continue
-            want = docs[key].subs({"M": mm})
-            ok = val.equals(want)
-            ctx.check(ok, f"{tag}: {nm} equals the documented {key} = {docs[key]}", fn, None if ok else {"code": repr(val), "documented": repr(want)})
-        for nm, num in (("self.A0", A0), ("self.A1", A1)):
-            v = ev.env.get(nm)
-            ok = v is not None and not is_unknown(v) and num is not None and A is not None and v.equals(num / A)
-            ctx.check(ok, f"{tag}: {nm} is pre-divided by A", fn, None if ok else repr(v))
-        v = ev.env.get("self.Ad")
-        ok = v is not None and not is_unknown(v) and A is not None and v.equals(A)
-        ctx.check(ok, f"{tag}: self.Ad is A", fn)
-    # the comment block inside _newmark_precalcs is a third sibling
     fn = ctx.src.func(NM, "SolveNewmark._newmark_precalcs")
+    # the documented A, A_1, A_0 are linear in (M, B, K): they can be taken entry by entry for matrices
+    for key in ("A", "A_1", "A_0"):
+        t = F.sym("t")
+        lin = docs[key].subs({"M": t * M_, "B": t * B_, "K": t * K_}).equals(t * docs[key])
+        if not lin:
+            raise Unsupported(f"documented {key} is not linear in M, B, K")
+    for unc in (UNC_F, CPL):
+        for m_none in (False, True):
+            tag = f"_newmark_precalcs ({'diagonal' if unc else 'full'} matrices, m {'None' if m_none else 'given'})"
+            it = I.Interp(ctx)
+            shape = (N,) if unc else (N, N)
+            m, b, k = (I.NDArr.syms(x, shape) for x in "mbk")
+            if m_none:
+                mm = I.NDArr.full(shape, F.const(1)) if unc else I._np_eye(None, [N], {})
+            else:
+                mm = m
+            me = I.Obj(it.cls(NM, "SolveNewmark"), "self", h=H, m=None if m_none else m, b=b, k=k, unc=unc, ksize=N)
+            ok, _ = _guard(ctx, tag, fn, lambda: it.call_method(me, "_newmark_precalcs"))
+            if not ok:
+                continue
+            want = {key: I.NDArr.new(shape, [_doc_entry(docs[key], x, y, z) for x, y, z in zip(mm.flat(), b.flat(), k.flat())])
+                    for key in ("A", "A_1", "A_0")}
+            Ad = me.attrs.get("Ad")
+            Amat = Ad.mat if isinstance(Ad, I.LU) else Ad
+            ok = isinstance(Amat, I.NDArr) and _eq(Amat, want["A"]) and (unc or isinstance(Ad, I.LU))
+            ctx.check(ok, f"{tag}: self.Ad is the documented A = {docs['A']}" + ("" if unc else " (LU factored)"), fn, None if ok else _show(Amat))
+            for nm, key in (("A1", "A_1"), ("A0", "A_0")):
+                v = me.attrs.get(nm)
+                if not isinstance(v, I.NDArr) or not isinstance(Amat, I.NDArr):
+                    ctx.fail(f"{tag}: self.{nm} is inv(A) times the documented {key} = {docs[key]}", fn, _show(v))
+                    continue
+                # A x = A_k decides x = inv(A) A_k without inverting on the checker's side; the documented A is used, not the code's
+                lhs = want["A"] * v if unc else want["A"] @ v
+                ok = _eq(lhs, want[key])
+                ctx.check(ok, f"{tag}: self.{nm} is inv(A) times the documented {key} = {docs[key]}", fn, None if ok else _show(v))
+    # the comment block inside _newmark_precalcs is a third sibling (documentation only: not behaviour, hence nontrivial=False)
     src = ctx.src.seg(fn)
     com = {}
     for nm in ("A", "A1", "A0"):
@@ -191,277 +315,519 @@ def r2_code_equals_documentation(ctx):
             ctx.note(f"comment formula for {nm} not parsed")
             continue
         ok = v.equals(docs[key])
-        ctx.check(ok, f"_newmark_precalcs: the comment's formula for {nm} agrees with the class documentation", fn, None if ok else repr(v))
-    # start-up: u_-1 = u0 - v0 h ; F_-1 = K u_-1 + B v0 ; F_0 := K u0 + B v0
+        ctx.check(ok, f"_newmark_precalcs: the comment's formula for {nm} agrees with the class documentation", fn, None if ok else repr(v), nontrivial=False)
+    _r2_startup(ctx, docs)
+
+
+def _r2_startup(ctx, docs):
+    """start-up step of _init_dva: u_-1 = u_0 - v_0 h ; F_-1 = K u_-1 + B v_0 ; F_0 := K u_0 + B v_0 ; A u_1 = (F_1 + F_0 + F_-1)/3 + N_0 + A_1 u_0 + A_0 u_-1"""
     ini = ctx.src.func(NM, "SolveNewmark._init_dva")
-    d0, v0 = F.sym("d0"), F.sym("v0")
-    f = tuple(F.sym(f"f{i}") for i in range(4))
-    Ad = F.sym("Ad")
-    for unc in (True, False):
-        def cond(test, ev, unc=unc):
-            t = utext(test)
-            return {"self.rfsize": False, "self.ksize==0": False, "self.nonlin_terms": False, "self.unc": unc,
-                    "d0isNone": False, "v0isNone": False}.get(t)
-
-        def call(node, ev):
-            d = dotted(node.func) or ""
-            if d == "la.lu_solve" and len(node.args) >= 2:
-                a, b = ev.ev(node.args[0]), ev.ev(node.args[1])
-                if isinstance(b, tuple):
-                    return tuple(need(x) / need(a) for x in b)
-                if is_unknown(a) or is_unknown(b):
-                    return a if is_unknown(a) else b
-                return need(b) / need(a)
-            if d in ("self._set_initial_cond",):
-                return (d0, v0)
-            if d in ("self._alloc_dva",):
-                return (F.sym("d"), F.sym("v"), F.sym("a"))
-            if d in ("self._init_dv",):
-                return F.const(0)
-            return NotImplemented
-
-        def sub(node, ev):
-            t = utext(node)
-            if t in ("d0[self.nonrf]",):
-                return d0
-            if t in ("v0[self.nonrf]",):
-                return v0
-            if t == "force.shape[0]":
-                return F.sym("n")
-            if t == "force.shape[1]":
-                return F.const(4)
-            if t == "self.Ad[:,None]":
-                return Ad
-            if t == "d[self.nonrf,1]" and isinstance(node.ctx, ast.Load):
-                for b_, i_, v_, s_ in reversed(ev.stores):
-                    if b_ == "d" and i_.replace(" ", "") in ("self.nonrf,1", "(self.nonrf,1)"):
-                        return v_
-            return NotImplemented
-
-        N0 = F.sym("N0")   # nonlinear force of the start-up step (sum_k T_k z_k(d, 0, h)), zero when no nonlinear terms are defined
-        ev = Evaluator(env={"force": f, "self.h": h, "self.k": K_, "self.b": B_, "self.Ad": Ad, "self.A1": F.sym("A1p"), "self.A0": F.sym("A0p"),
-                            "self.n": F.sym("n")}, cond=cond, src=ctx.src, call=call, subscript=sub, pinned={"N": N0})
-        ev.run(ini.body)
-        tag = f"SolveNewmark._init_dva ({'uncoupled' if unc else 'coupled'})"
-        u1 = ev.env.get("u_1")
-        ok = u1 is not None and not is_unknown(u1) and u1.equals(d0 - v0 * h)
-        ctx.check(ok, f"{tag}: u_-1 = u_0 - v_0 h as documented", ini, None if ok else repr(u1))
-        d1 = [v for b, i, v, s in ev.stores if b == "d" and i.replace(" ", "") in ("self.nonrf,1", "(self.nonrf,1)")]
-        a0 = [v for b, i, v, s in ev.stores if b == "a"]
-        if not d1 or is_unknown(d1[-1]):
-            ctx.error(f"{tag}: first step", ini, repr(d1))
-            continue
-        um1 = d0 - v0 * h
-        # documented: A u_1 = (F_1 + F_0 + F_-1)/3 + A_1 u_0 + A_0 u_-1 with F_0 := K u0 + B v0, F_-1 = K u_-1 + B v0 ; A1p = A_1/A, A0p = A_0/A
-        want = (f[1] + (K_ * d0 + B_ * v0) + (K_ * um1 + B_ * v0)) / (3 * Ad) + N0 + F.sym("A1p") * d0 + F.sym("A0p") * um1
-        ok = d1[-1].equals(want)
-        ctx.check(ok, f"{tag}: the first step uses F_0 := K u_0 + B v_0, F_-1 = K u_-1 + B v_0, u_-1 and the start-up nonlinear term N_0 in the documented recurrence", ini,
-                  None if ok else {"code": repr(d1[-1]), "documented": repr(want)})
-        ok = bool(a0) and not is_unknown(a0[-1]) and a0[-1].equals((d1[-1] - 2 * d0 + um1) / (h * h))
-        ctx.check(ok, f"{tag}: initial acceleration is the central difference (u_1 - 2 u_0 + u_-1)/h^2", ini, None if ok else repr(a0[-1]) if a0 else None)
-        frc = ev.env.get("force")
-        ok = isinstance(frc, tuple) and all(not is_unknown(x) for x in frc) and all(frc[i].equals(f[i] / (3 * Ad)) for i in (1, 2, 3))
-        ctx.check(ok, f"{tag}: the returned force is F/3 pre-divided by A (what the recurrence in tsolve adds directly)", ini)
+    # the documented start-up displacement, read from the docstring: u_{-1} = u_0 - \dot{u}_0 h
+    du = docs.get("u_-1")
+    for unc in (UNC_F, CPL):
+        for nonlin in (False, True):
+            tag = f"SolveNewmark._init_dva ({_cfg(unc, nonlin)})"
+            terms = NLTerms() if nonlin else None
+            it = I.Interp(ctx, on_opaque=terms.hook if terms else None)
+            me = _nm_self(it, unc, terms)
+            f, d0, v0 = mat("f", N, NT), vec("d0"), vec("v0")
+            ok, res = _guard(ctx, tag, ini, lambda: it.call_method(me, "_init_dva", f, d0, v0))
+            if not ok:
+                continue
+            if not (isinstance(res, tuple) and len(res) == 4 and all(isinstance(x, I.NDArr) for x in res)):
+                ctx.fail(f"{tag}: returns (d, v, a, force)", ini, _show(res))
+                continue
+            d, v, a, frc = res
+            K, B, A1, A0 = (me.attrs[x] for x in ("k", "b", "A1", "A0"))
+            mul, inva = _mul(unc), _inv_a(me, unc)
+            if du is not None:
+                um1 = I.NDArr.new((N,), [du.subs({"u_0": x, "vu_0": y}) for x, y in zip(d0.flat(), v0.flat())])
+            else:
+                um1 = d0 - v0 * H
+            F0 = mul(K, d0) + mul(B, v0)
+            Fm1 = mul(K, um1) + mul(B, v0)
+            N0 = terms.force(0) if nonlin else 0
+            want_d1 = inva((f[:, 1] + F0 + Fm1) / 3) + N0 + mul(A1, d0) + mul(A0, um1)
+            if nonlin:
+                c0 = [c for c in terms.calls if c["j"] == 0]
+                ok = {c["k"] for c in c0} == {0, 1} and len(terms.calls) == 2 and all(
+                    terms.call_ok(c) and c["snap"].shape == (N, NT) and _eq(c["snap"][:, -1], um1) and _eq(c["snap"][:, 0], d0) for c in c0)
+                ctx.check(ok, f"{tag}: when the nonlinear functions are evaluated at j = 0 as func(d, 0, h, **optargs), column 0 of d is u_0 and the "
+                              "last column holds the documented u_-1 = u_0 - v_0 h (unconditionally: def_nonlin documents d[:, j-1] for j = 0)", ini,
+                          None if ok else [(c["k"], c["j"], _show(c["snap"][:, -1] if c["snap"] is not None and c["snap"].ndim == 2 else c["snap"])) for c in terms.calls])
+                z = me.attrs.get("z")
+                ok = isinstance(z, dict) and set(z) == set(terms.keys) and all(
+                    isinstance(z[key], I.NDArr) and z[key].shape == (NZ, NT) and _eq(z[key][:, 0], terms.z(k_, 0)) for k_, key in enumerate(terms.keys))
+                ctx.check(ok, f"{tag}: self.z[key] is allocated with one column per time step and column 0 is the function output at j = 0", ini,
+                          None if ok else _show(z))
+            ok = _eq(d[:, 1], want_d1) and _eq(d[:, 0], d0)
+            ctx.check(ok, f"{tag}: the first step uses F_0 := K u_0 + B v_0, F_-1 = K u_-1 + B v_0, u_-1 = u_0 - v_0 h and the start-up nonlinear term N_0 "
+                          "in the documented recurrence", ini, None if ok else {"code": _show(d[:, 1]), "documented": _show(want_d1)})
+            want_a0 = (want_d1 - 2 * d0 + um1) / (H * H)
+            ok = _eq(a[:, 0], want_a0) and _eq(v[:, 0], v0)
+            ctx.check(ok, f"{tag}: initial acceleration is the central difference (u_1 - 2 u_0 + u_-1)/h^2", ini, None if ok else _show(a[:, 0]))
+            want_f = [inva(F0 / 3)] + [inva(f[:, j] / 3) for j in range(1, NT)]
+            ok = frc.shape == (N, NT) and all(_eq(frc[:, j], want_f[j]) for j in range(NT))
+            ctx.check(ok, f"{tag}: the returned force is inv(A) F/3 with F_0 replaced (what the recurrence in tsolve adds directly)", ini,
+                      None if ok else _show(frc))
 
 
-def _tsolve_arms(ctx):
+# ---------------------------------------------------------------------------
+class TsolveRun:
+    """SolveNewmark.tsolve evaluated after a start-up step that left symbols in the arrays (the contract of _init_dva checked by R2)"""
+
+    def __init__(self, ctx, unc, nonlin):
+        self.unc, self.nonlin = unc, nonlin
+        self.terms = NLTerms() if nonlin else None
+        self.it = it = I.Interp(ctx, on_opaque=self.terms.hook if self.terms else None)
+        self.me = me = _nm_self(it, unc, self.terms)
+        self.u0, self.u1, self.v0, self.a0, self.um1 = vec("u0"), vec("u1"), vec("v0"), vec("a0"), vec("um1")
+        zero = F.const(0)
+        self.d, self.v, self.a = (I.NDArr.full((N, NT), zero, lbl) for lbl in "dva")
+        self.Fs = mat("F", N, NT)
+
+        def init_dva(it_, args, kwargs):
+            for col, val in ((0, self.u0), (1, self.u1)) + (((NT - 1, self.um1),) if nonlin else ()):
+                for r in range(N):
+                    self.d.st.data[self.d.ix[r * NT + col]] = val.flat()[r]
+            for r in range(N):
+                self.v.st.data[self.v.ix[r * NT]] = self.v0.flat()[r]
+                self.a.st.data[self.a.ix[r * NT]] = self.a0.flat()[r]
+            if nonlin:
+                zz = {}
+                for k_, key in enumerate(self.terms.keys):
+                    arr = I.NDArr.full((NZ, NT), zero)
+                    for r in range(NZ):
+                        arr.st.data[arr.ix[r * NT]] = self.terms.z(k_, 0).flat()[r]
+                    zz[key] = arr
+                me.attrs["z"] = zz
+            return self.d, self.v, self.a, self.Fs
+
+        def solution(it_, args, kwargs):
+            self.sol_args = args
+            return I.Obj(None, "sol", d=args[0], v=args[1], a=args[2])
+
+        me.overrides["_init_dva"] = init_dva
+        me.overrides["_solution"] = solution
+        self.sol = None
+        self.sol_args = None
+
+    def run(self):
+        self.sol = self.it.call_method(self.me, "tsolve", mat("force", N, NT), vec("d0"), vec("v0"))
+        return self
+
+    def N(self, j):
+        return self.terms.force(j) if self.nonlin else 0
+
+    def De(self):
+        """the displacement of the extra step as the code used it for the last velocity: V_last = (De - u_nt-2)/(2h)"""
+        return self.v[:, NT - 1] * (2 * H) + self.d[:, NT - 2]
+
+
+def _tsolve_runs(ctx):
     fn = ctx.src.func(NM, "SolveNewmark.tsolve")
-    arms = {}
-    for st in ast.walk(fn):
-        if isinstance(st, ast.For) and ast.unparse(st.iter).replace(" ", "") == "range(2,nt)":
-            doms = []
-            for a in ancestors(st):
-                if isinstance(a, ast.If):
-                    inb = any(st is y for x in a.body for y in ast.walk(x))
-                    doms.append((ast.unparse(a.test).replace(" ", ""), inb))
-            nl = not dict(doms).get("self.nonlin_terms==0", True)
-            unc = dict(doms).get("self.unc", None)
-            # the De statement that follows the loop in the same block
-            blk = getattr(parent(st), "body") if st in getattr(parent(st), "body", []) else getattr(parent(st), "orelse")
-            de = blk[blk.index(st) + 1] if blk.index(st) + 1 < len(blk) else None
-            arms[(unc, nl)] = (st, de)
-    return fn, arms
+    runs = {}
+    for unc in (UNC_F, CPL):
+        for nonlin in (False, True):
+            tag = f"tsolve ({_cfg(unc, nonlin)})"
+            r = TsolveRun(ctx, unc, nonlin)
+            ok, _ = _guard(ctx, tag, fn, r.run)
+            if ok:
+                ok = isinstance(r.sol, I.Obj) and r.sol_args is not None and all(x is y for x, y in zip(r.sol_args[:3], (r.d, r.v, r.a)))
+                if not ok:
+                    ctx.fail(f"{tag}: the solution is built from the arrays d, v, a of the start-up step", fn)
+            runs[(unc, nonlin)] = r if ok else None
+    return fn, runs
+
+
+def _to_diag_names(name):
+    """substitution that turns the entries of a full coefficient matrix into those of a diagonal one"""
+    mp = {}
+    for i in range(N):
+        for j in range(N):
+            mp[f"{name}_{i}_{j}"] = F.sym(f"{name}_{i}") if i == j else F.const(0)
+    return mp
+
+
+def _subs_arr(a, mp):
+    return I.NDArr.new(a.shape, [I.R(e).subs(mp) for e in a.flat()])
 
 
 def r1_four_branch_agreement(ctx):
-    fn, arms = _tsolve_arms(ctx)
-    ok = set(arms) == {(True, False), (False, False), (True, True), (False, True)}
-    if not ctx.check(ok, "SolveNewmark.tsolve: four recurrence loops (uncoupled/coupled x with/without nonlinear terms)", fn, sorted(map(str, arms))):
-        return
-    A1p, A0p = F.sym("A1p"), F.sym("A0p")
-    forms = {}
-    for key, (lp, de) in arms.items():
-        def sub(node, ev):
-            t = utext(node)
-            tb = {"F[:,j]": F.sym("Fj"), "F[:,j-1]": F.sym("Fj1"), "F[:,j-2]": F.sym("Fj2"), "D[:,j-1]": F.sym("Dj1"), "D[:,j-2]": F.sym("Dj2"),
-                  "F[:,-1]": F.sym("Fl"), "D[:,-1]": F.sym("Dl"), "D[:,-2]": F.sym("Dl2")}
-            return tb.get(t, NotImplemented)
-
-        def call(node, ev):
-            if dotted(node.func) == "_get_nonlin":
-                return F.sym("N_" + ast.unparse(node.args[0]).replace(" ", "").replace("-", "m"))
-            return NotImplemented
-
-        ev = Evaluator(env={"A1": A1p, "A0": A0p}, src=ctx.src, subscript=sub, call=call)
-        ev.run(lp.body)
-        dj = [v for b, i, v, s in ev.stores if b == "D"]
-        ev.stmt(de) if de is not None else None
-        forms[key] = (dj[-1] if dj else None, ev.env.get("De"))
-    for key, (dj, De) in forms.items():
-        unc, nl = key
-        tag = f"tsolve ({'uncoupled' if unc else 'coupled'}, {'nonlinear' if nl else 'linear'})"
-        N = F.sym("N_jm1") if nl else F.const(0)
-        want = F.sym("Fj") + F.sym("Fj1") + F.sym("Fj2") + N + A1p * F.sym("Dj1") + A0p * F.sym("Dj2")
-        ok = dj is not None and not is_unknown(dj) and dj.equals(want)
-        ctx.check(ok, f"{tag}: u_j = F_j + F_j-1 + F_j-2 {'+ N_j-1 ' if nl else ''}+ A1 u_j-1 + A0 u_j-2 (forces already scaled by 1/(3A): the documented recurrence)",
-                  arms[key][0], None if ok else repr(dj))
-        # last step: the same recurrence at j = nt with F_nt := 2 F_last - F_last-1 (linear extrapolation)
-        Nl = F.sym("N_ntm1") if nl else F.const(0)
-        Fe = 2 * F.sym("Fl") - F.sym("Fl2")
-        wantDe = (Fe + F.sym("Fl") + F.sym("Fl2")) + Nl + A1p * F.sym("Dl") + A0p * F.sym("Dl2")
-        ok = De is not None and not is_unknown(De) and De.equals(wantDe)
-        ctx.check(ok, f"{tag}: the extra step De is the recurrence with the force linearly extrapolated (F_e + F_-1 + F_-2 = 3 F_-1)"
-                      f"{' and the nonlinear term of the last step' if nl else ''}", arms[key][1] or arms[key][0], None if ok else repr(De))
-    base = forms[(True, False)]
-    for key, (dj, De) in forms.items():
-        if key == (True, False) or dj is None or base[0] is None:
+    fn, runs = _tsolve_runs(ctx)
+    for (unc, nonlin), r in runs.items():
+        if r is None:
             continue
-        same = dj.subs({"N_jm1": 0}).equals(base[0]) and De is not None and base[1] is not None and De.subs({"N_ntm1": 0}).equals(base[1])
-        ctx.check(same, f"tsolve: the {'uncoupled' if key[0] else 'coupled'}/{'nonlinear' if key[1] else 'linear'} arm is the uncoupled linear arm "
-                        "(with `@` for `*` and the nonlinear term added)", arms[key][0])
+        tag = f"tsolve ({_cfg(unc, nonlin)})"
+        mul = _mul(unc)
+        A1, A0, Fs, d = r.me.attrs["A1"], r.me.attrs["A0"], r.Fs, r.d
+        ok = _eq(d[:, 0], r.u0) and _eq(d[:, 1], r.u1)
+        ctx.check(ok, f"{tag}: the displacements of the start-up step (columns 0 and 1) are kept", fn)
+        bad = None
+        for j in range(2, NT):
+            want = Fs[:, j] + Fs[:, j - 1] + Fs[:, j - 2] + r.N(j - 1) + mul(A1, d[:, j - 1]) + mul(A0, d[:, j - 2])
+            if not _eq(d[:, j], want):
+                bad = {"step": j, "code": _show(d[:, j]), "documented": _show(want)}
+                break
+        ctx.check(bad is None, f"{tag}: u_j = F_j + F_j-1 + F_j-2 {'+ N_j-1 ' if nonlin else ''}+ A1 u_j-1 + A0 u_j-2 for every step j >= 2 "
+                               "(forces already scaled by inv(A)/3: the documented recurrence)", fn, bad)
+        # last step: the same recurrence at j = nt with F_nt := 2 F_last - F_last-1 (linear extrapolation)
+        Fe = 2 * Fs[:, NT - 1] - Fs[:, NT - 2]
+        want = Fe + Fs[:, NT - 1] + Fs[:, NT - 2] + r.N(NT - 1) + mul(A1, d[:, NT - 1]) + mul(A0, d[:, NT - 2])
+        ok = _eq(r.De(), want)
+        ctx.check(ok, f"{tag}: the extra step behind the last velocity is the recurrence with the force linearly extrapolated "
+                      f"(F_e + F_-1 + F_-2 = 3 F_-1){' and the nonlinear term of the last step' if nonlin else ''}", fn,
+                  None if ok else {"code": _show(r.De()), "documented": _show(want)})
+    base = runs.get((UNC_F, False))
+    for key, r in runs.items():
+        if key == (UNC_F, False) or r is None or base is None:
+            continue
+        unc, nonlin = key
+        mp = {}
+        if not unc:
+            mp.update(_to_diag_names("A1"))
+            mp.update(_to_diag_names("A0"))
+        if nonlin:
+            for k_ in range(2):
+                for j in range(NT):
+                    for q in range(NZ):
+                        mp[f"z{k_}_{j}_{q}"] = F.const(0)
+        same = _eq(_subs_arr(r.d, mp), base.d) and _eq(_subs_arr(r.De(), mp), base.De())
+        ctx.check(same, f"tsolve: the {'uncoupled' if unc else 'coupled'}/{'nonlinear' if nonlin else 'linear'} arm is the uncoupled linear arm "
+                        "(diagonal coefficient matrices, vanishing nonlinear terms)", fn)
 
 
 def r3_differences(ctx):
-    fn = ctx.src.func(NM, "SolveNewmark.tsolve")
-    D = tuple(F.sym(f"D{i}") for i in range(5))
-    De = F.sym("De")
-    ev = Evaluator(env={"D": D, "De": De, "h": h, "V": tuple(F.sym(f"V{i}") for i in range(5)), "A": tuple(F.sym(f"A{i}") for i in range(5))},
-                   src=ctx.src)
-    for st in walk_no_nested(fn):
-        if isinstance(st, ast.Assign) and ast.unparse(st.targets[0]) in ("h2", "sqh"):
-            ev.stmt(st)
-    sts = [st for st in walk_no_nested(fn) if isinstance(st, ast.Assign) and isinstance(st.targets[0], ast.Subscript)
-           and ast.unparse(st.targets[0].value) in ("V", "A") and "D[" in ast.unparse(st.value)]
-    for st in sts:
-        ev.stmt(st)
-    V, A = ev.env.get("V"), ev.env.get("A")
-    n = len(D)
-    okv = isinstance(V, tuple) and all(not is_unknown(V[i]) and V[i].equals((D[i + 1] - D[i - 1]) / (2 * h)) for i in range(1, n - 1))
-    ctx.check(okv, "tsolve: interior velocities are the documented central difference (u_n+1 - u_n-1)/(2h)", sts[0] if sts else fn,
-              None if okv else repr(V))
-    oka = isinstance(A, tuple) and all(not is_unknown(A[i]) and A[i].equals((D[i + 1] - 2 * D[i] + D[i - 1]) / (h * h)) for i in range(1, n - 1))
-    ctx.check(oka, "tsolve: interior accelerations are the documented central difference (u_n+1 - 2 u_n + u_n-1)/h^2", sts[0] if sts else fn,
-              None if oka else repr(A))
-    okl = isinstance(V, tuple) and not is_unknown(V[-1]) and V[-1].equals((De - D[-2]) / (2 * h)) and isinstance(A, tuple) and \
-        not is_unknown(A[-1]) and A[-1].equals((De - 2 * D[-1] + D[-2]) / (h * h))
-    ctx.check(okl, "tsolve: the last velocity and acceleration use the extrapolated step De in the same differences", sts[-1] if sts else fn)
+    fn, runs = _tsolve_runs(ctx)
+    live = {k: r for k, r in runs.items() if r is not None}
+    if not live:
+        return
+    h2, sqh = 2 * H, H * H
+    bad = [k for k, r in live.items() if not (all(_eq(r.v[:, i], (r.d[:, i + 1] - r.d[:, i - 1]) / h2) for i in range(1, NT - 1)) and _eq(r.v[:, 0], r.v0))]
+    ctx.check(not bad, "tsolve: interior velocities are the documented central difference (u_n+1 - u_n-1)/(2h) and the initial velocity is kept", fn,
+              None if not bad else [_cfg(*k) for k in bad])
+    bad = [k for k, r in live.items() if not (all(_eq(r.a[:, i], (r.d[:, i + 1] - 2 * r.d[:, i] + r.d[:, i - 1]) / sqh) for i in range(1, NT - 1))
+                                              and _eq(r.a[:, 0], r.a0))]
+    ctx.check(not bad, "tsolve: interior accelerations are the documented central difference (u_n+1 - 2 u_n + u_n-1)/h^2 and the start-up "
+                       "acceleration is kept", fn, None if not bad else [_cfg(*k) for k in bad])
+    bad = [k for k, r in live.items() if not _eq(r.a[:, NT - 1], (r.De() - 2 * r.d[:, NT - 1] + r.d[:, NT - 2]) / sqh)]
+    ctx.check(not bad, "tsolve: the last velocity and acceleration use the same extrapolated step De in the documented differences", fn,
+              None if not bad else [_cfg(*k) for k in bad])
     # nonlinear term placement
-    t = utext(fn)
-    ok = t.count("_get_nonlin(j-1)") == 2 and t.count("_get_nonlin(nt-1)") == 2
-    ctx.check(ok, "tsolve: the nonlinear force of step j-1 feeds step j, and that of step nt-1 feeds the extra step", fn)
-    gn = ctx.src.func(NM, "SolveNewmark.tsolve._get_nonlin")
-    t = utext(gn)
-    ok = "z=func(D,j,h,**args)" in t and "self.z[key][:,j]=z" in t and "N+=T@z" in t
-    ctx.check(ok, "_get_nonlin: N_j = sum_k T_k z_k(D, j, h) and z is recorded at column j", gn)
+    for (unc, nonlin), r in live.items():
+        if not nonlin:
+            continue
+        tag = f"tsolve ({_cfg(unc, nonlin)})"
+        t = r.terms
+        want = {(k_, j) for k_ in range(2) for j in range(1, NT)}
+        got = [(c["k"], c["j"]) for c in t.calls]
+        ok = set(got) == want and len(got) == len(want) and all(
+            t.call_ok(c) and c["snap"].shape == (N, NT) and all(_eq(c["snap"][:, i], r.d[:, i]) for i in range(c["j"] + 1)) for c in t.calls)
+        ctx.check(ok, f"{tag}: every nonlinear function is evaluated once per step j = 1 .. nt-1 as func(D, j, h, **optargs) on the final "
+                      "displacements of steps 0 .. j (its force feeds step j+1; that of step nt-1 feeds the extra step)", fn, None if ok else got)
+        z = r.me.attrs.get("z")
+        ok = isinstance(z, dict) and set(z) == set(t.keys) and all(
+            isinstance(z[key], I.NDArr) and z[key].shape == (NZ, NT) and all(_eq(z[key][:, j], t.z(k_, j)) for j in range(NT))
+            for k_, key in enumerate(t.keys)) and r.sol.attrs.get("z") is z
+        ctx.check(ok, f"{tag}: the output of every nonlinear function at step j is recorded in column j of z[key] and returned as sol.z", fn,
+                  None if ok else _show(z))
+    for (unc, nonlin), r in live.items():
+        if not nonlin:
+            ok = "z" not in r.sol.attrs
+            ctx.check(ok, f"tsolve ({_cfg(unc, nonlin)}): no nonlinear function is evaluated and no z is returned without nonlinear terms", fn)
     dn = ctx.src.func(NM, "SolveNewmark.def_nonlin")
-    t = utext(dn)
-    ok = "T=v[1]/self.Ad[:,None]" in t and "T=la.lu_solve(self.Ad,v[1])" in t
-    ctx.check(ok, "def_nonlin: the nonlinear transforms are pre-divided by A like every other right-hand-side term", dn)
+    for unc in (UNC_F, CPL):
+        tag = f"def_nonlin ({'uncoupled' if unc else 'coupled'})"
+        t = NLTerms()
+        it = I.Interp(ctx, on_opaque=t.hook)
+        me = _nm_self(it, unc)
+        dct = {t.keys[0]: (t.funcs[0], t.T[0]), t.keys[1]: (t.funcs[1], t.T[1], t.kwargs[1])}
+        ok, _ = _guard(ctx, tag, dn, lambda: it.call_method(me, "def_nonlin", dct))
+        if not ok:
+            continue
+        inva = _inv_a(me, unc)
+        nl = me.attrs.get("nl_dct")
+        ok = isinstance(nl, dict) and list(nl) == t.keys and me.attrs.get("nonlin_terms") == 2 and not t.calls
+        if ok:
+            for k_, key in enumerate(t.keys):
+                e = nl[key]
+                ok = ok and isinstance(e, (tuple, list)) and len(e) == 3 and e[0] is t.funcs[k_] and _eq(e[1], inva(t.T[k_])) and \
+                    (e[2] is t.kwargs[1] if k_ == 1 else e[2] == {})
+        ctx.check(ok, f"{tag}: every term keeps its function and optional arguments, its transform is pre-multiplied by inv(A) like every other "
+                      "right-hand-side term, and nonlin_terms counts the terms", dn, None if ok else _show(nl))
+
+
+# ---------------------------------------------------------------------------
+def _isdiag(it, a, k):
+    """pyyeti.ytools.isdiag on a symbolic matrix: diagonal iff every off-diagonal entry is the constant zero"""
+    m = a[0]
+    if not isinstance(m, I.NDArr) or m.ndim != 2 or m.shape[0] != m.shape[1]:
+        return False
+    return all(I.R(m.item(i, j)).is_zero() for i in range(m.shape[0]) for j in range(m.shape[1]) if i != j)
+
+
+def _chk_diag(ctx, fn, tag, m, b, k, cd_as_force):
+    it = I.Interp(ctx, stubs={"pyyeti.ytools.isdiag": _isdiag, "isdiag": _isdiag})
+    me = I.Obj(it.cls(BASE, "_BaseODE"), "self", rfsize=0, nonrf=slice(None), rf=slice(0, 0))
+    ok, _ = _guard(ctx, tag, fn, lambda: it.call_method(me, "_chk_diag_part", m, b, k, cd_as_force))
+    return me if ok else None
+
+
+def _tv(test, fn, env, depth=0):
+    """three-valued truth of a test under {dotted name: bool}; a local assigned exactly once in `fn` stands for its defining expression"""
+    d = dotted(test)
+    if d is not None and d in env:
+        return env[d]
+    if isinstance(test, ast.Constant):
+        return bool(test.value)
+    if isinstance(test, ast.UnaryOp) and isinstance(test.op, ast.Not):
+        r = _tv(test.operand, fn, env, depth)
+        return None if r is None else (not r)
+    if isinstance(test, ast.BoolOp):
+        rs = [_tv(v, fn, env, depth) for v in test.values]
+        if isinstance(test.op, ast.And):
+            return False if any(r is False for r in rs) else (True if all(r is True for r in rs) else None)
+        return True if any(r is True for r in rs) else (False if all(r is False for r in rs) else None)
+    if isinstance(test, ast.Compare) and len(test.ops) == 1 and isinstance(test.comparators[0], ast.Constant) \
+            and isinstance(test.comparators[0].value, bool) and isinstance(test.ops[0], (ast.Is, ast.Eq, ast.IsNot, ast.NotEq)):
+        r = _tv(test.left, fn, env, depth)
+        if r is None:
+            return None
+        r = r == test.comparators[0].value
+        return r if isinstance(test.ops[0], (ast.Is, ast.Eq)) else not r
+    if isinstance(test, ast.Name) and depth < 4:
+        defs = [st for st in walk_no_nested(fn) if isinstance(st, ast.Assign) and any(isinstance(t, ast.Name) and t.id == test.id for t in st.targets)]
+        others = [n for n in walk_no_nested(fn) if isinstance(n, ast.Name) and n.id == test.id and isinstance(n.ctx, ast.Store)]
+        if len(defs) == 1 and len(others) == 1:
+            return _tv(defs[0].value, fn, env, depth + 1)
+    return None
+
+
+def _terminates(body):
+    return bool(body) and isinstance(body[-1], (ast.Return, ast.Raise))
+
+
+def _unreachable(node, fn, env):
+    """node cannot execute when the names of `env` have the given truth values (dominating tests and preceding guard clauses)"""
+    child = node
+    for a in ancestors(node):
+        if isinstance(a, (ast.If, ast.IfExp)):
+            body = a.body if isinstance(a.body, list) else [a.body]
+            orelse = a.orelse if isinstance(a.orelse, list) else [a.orelse]
+            t = _tv(a.test, fn, env)
+            if any(child is x for x in body) and t is False:
+                return True
+            if any(child is x for x in orelse) and t is True:
+                return True
+        for blk in ("body", "orelse", "finalbody"):
+            lst = getattr(a, blk, None)
+            if isinstance(lst, list) and any(child is x for x in lst):
+                for prev in lst[:[i for i, x in enumerate(lst) if x is child][0]]:
+                    if isinstance(prev, ast.If):
+                        t = _tv(prev.test, fn, env)
+                        if (t is True and _terminates(prev.body)) or (t is False and _terminates(prev.orelse)):
+                            return True
+        if a is fn:
+            break
+        child = a
+    return False
+
+
+def _forwarding(ctx, it, cdf, unc_cls, name):
+    """SolveCDF.<name> evaluated with SolveUnc.<name> replaced by a recorder: {parameter of SolveUnc.<name>: value}, token returned, effects"""
+    c, node = cdf.find(it, name)
+    uc, unode = unc_cls.find(it, name)
+    if node is None or unode is None:
+        raise AnchorError(f"SolveCDF.{name} / SolveUnc.{name}")
+    ufunc = it.make_func(unode, uc.module, None, uc)
+    params = [a.arg for a in node.args.posonlyargs + node.args.args][1:]
+    nreq = len(params) - len(node.args.defaults)
+    out = []
+    for given in (params, params[:nreq]):
+        toks = {p_: I.Opaque("arg:" + p_) for p_ in given}
+        ret = I.Opaque("result of SolveUnc." + name)
+        rec = {}
+
+        def recorder(it_, args, kwargs, rec=rec, ret=ret):
+            rec["n"] = rec.get("n", 0) + 1
+            rec["env"] = it.bind(ufunc, [None] + list(args), kwargs)
+            return ret
+        me = I.Obj(cdf, "self")
+        me.overrides["SolveUnc." + name] = recorder
+        n0 = len(it.calls)
+        res = it.call_method(me, name, **toks)
+        others = [c_ for c_ in it.calls[n0:] if c_[1] not in ("SolveUnc." + name, "def:" + name)]
+        dflt = it.bind(ufunc, [None] + [I.Opaque("x")] * (len(unode.args.args) - 1 - len(unode.args.defaults)), {})
+        out.append({"toks": toks, "rec": rec, "res": res, "ret": ret, "clean": not me.attr_log and not others, "defaults": dflt})
+    return out
+
+
+def _plain_equal(a, b):
+    if isinstance(a, I.Rat) or isinstance(b, I.Rat):
+        return I.s_equal(a, b)
+    return type(a) is type(b) and a == b
 
 
 def r4_cdf_equals_unc_on_diagonal(ctx):
     fn = ctx.src.func(BASE, "_BaseODE._chk_diag_part")
-    sets = [st for st in ast.walk(fn) if isinstance(st, ast.Assign) and ast.unparse(st.targets[0]) == "cdforces"]
-    trues = [st for st in sets if ast.unparse(st.value) == "True"]
-    ok = len(trues) == 1
-    if ctx.check(ok, "_chk_diag_part: cdforces is set True at exactly one place", fn, [ast.unparse(s) for s in sets]):
-        st = trues[0]
-        p_ = parent(st)
-        ok = isinstance(p_, ast.If) and ast.unparse(p_.test) == "cd_as_force" and st in p_.body
-        gp = parent(p_)
-        ok = ok and isinstance(gp, ast.If) and p_ in gp.orelse and "isdiag(b)" in ast.unparse(gp.test) and "b.ndim==1" in ast.unparse(gp.test).replace(" ", "")
-        ctx.check(ok, "_chk_diag_part: cdforces becomes True only on the `elif cd_as_force` arm reached when the damping is NOT diagonal - "
-                      "with diagonal damping SolveCDF takes exactly SolveUnc's path", st)
-    t = utext(fn)
-    ok = "else:cdforces=False" in t.replace("\n", "") and "self.cdforces=cdforces" in t
-    ctx.check(ok, "_chk_diag_part: a system that is not fully uncoupled resets cdforces to False", fn)
-    c = ctx.src.func(CDF, "SolveCDF.__init__")
-    ok = "super().__init__(m,b,k,h,rb,rf,order,pre_eig,cd_as_force=True)" in utext(c)
-    ctx.check(ok, "SolveCDF.__init__ is SolveUnc.__init__ with cd_as_force=True and nothing else", c)
-    for q in ("SolveCDF.generator", "SolveCDF.fsolve"):
-        f2 = ctx.src.func(CDF, q)
-        rets = [ast.unparse(r.value).replace(" ", "") for r in ast.walk(f2) if isinstance(r, ast.Return)]
-        ok = len(rets) == 1 and rets[0].startswith("super().")
-        ctx.check(ok, f"{q} only delegates to SolveUnc", f2)
-    # every cdforces-specific branch in SolveUnc / _BaseODE is behind `self.cdforces`
+    dv = lambda nm: vec(nm, 3)
+    dm = lambda nm: I._np_diag(None, [vec(nm, 3)], {})
+    fm = lambda nm: mat(nm, 3, 3)
+    keys = ("m", "b", "k", "unc", "cdforces", "krf")
+
+    def same(x, y):
+        return all((_eq(x.attrs.get(q), y.attrs.get(q)) if isinstance(x.attrs.get(q), I.NDArr) else x.attrs.get(q) == y.attrs.get(q)) for q in keys) \
+            and ("bo" in x.attrs) == ("bo" in y.attrs)
+
+    ok_all, detail = True, []
+    for nm, mk in (("vector", dv), ("diagonal matrix", dm)):
+        for mk_mk in (dv, dm):
+            tag = f"_chk_diag_part (damping given as {nm})"
+            on = _chk_diag(ctx, fn, tag, mk_mk("m"), mk("b"), mk_mk("k"), True)
+            off = _chk_diag(ctx, fn, tag, mk_mk("m"), mk("b"), mk_mk("k"), False)
+            if on is None or off is None:
+                ok_all = None
+                continue
+            if not (on.attrs.get("cdforces") is False and on.attrs.get("unc") is True and same(on, off)):
+                ok_all = False
+                detail.append(f"{nm}: cdforces={on.attrs.get('cdforces')!r}")
+    if ok_all is not None:
+        ctx.check(ok_all, "_chk_diag_part: with diagonal damping (vector or diagonal matrix) cd_as_force changes nothing and cdforces stays False - "
+                          "SolveCDF takes exactly SolveUnc's path", fn, detail or None)
+    b = fm("b")
+    on = _chk_diag(ctx, fn, "_chk_diag_part (coupled damping, cd_as_force)", dv("m"), b, dm("k"), True)
+    if on is not None:
+        bo = on.attrs.get("bo")
+        ok = on.attrs.get("cdforces") is True and on.attrs.get("unc") is True and _eq(on.attrs.get("b"), I._np_diag(None, [b], {})) and \
+            isinstance(bo, I.NDArr) and bo.shape == (3, 3) and all(I.s_equal(bo.item(i, j), 0 if i == j else b.item(i, j)) for i in range(3) for j in range(3))
+        ctx.check(ok, "_chk_diag_part: with coupled damping on otherwise diagonal equations cd_as_force sets cdforces, keeps the diagonal of the damping as "
+                      "b and its off-diagonal part as bo (the C_od of the documented recurrence)", fn, None if ok else _show(bo))
+    off = _chk_diag(ctx, fn, "_chk_diag_part (coupled damping, no cd_as_force)", dv("m"), fm("b"), dm("k"), False)
+    on2 = _chk_diag(ctx, fn, "_chk_diag_part (coupled damping and stiffness, cd_as_force)", dv("m"), fm("b"), fm("k"), True)
+    on3 = _chk_diag(ctx, fn, "_chk_diag_part (coupled damping and mass, cd_as_force)", fm("m"), fm("b"), dv("k"), True)
+    if off is not None and on2 is not None and on3 is not None:
+        ok = all(x.attrs.get("cdforces") is False and x.attrs.get("unc") is False for x in (off, on2, on3))
+        ctx.check(ok, "_chk_diag_part: a system that is not fully uncoupled (or did not ask for cd_as_force) has cdforces False", fn,
+                  None if ok else [(x.attrs.get("cdforces"), x.attrs.get("unc")) for x in (off, on2, on3)])
+    it = I.Interp(ctx)
+    cdf, unc_cls = it.cls(CDF, "SolveCDF"), it.cls(UNC, "SolveUnc")
+    for name in ("__init__", "generator", "fsolve"):
+        c = ctx.src.func(CDF, f"SolveCDF.{name}") if ctx.src.has_func(CDF, f"SolveCDF.{name}") else ctx.src.cls(CDF, "SolveCDF")
+        tag = f"SolveCDF.{name}"
+        ok, res = _guard(ctx, tag, c, lambda: _forwarding(ctx, it, cdf, unc_cls, name))
+        if not ok:
+            continue
+        good = True
+        for r in res:
+            env = r["rec"].get("env")
+            good = good and env is not None and r["rec"].get("n") == 1 and r["clean"]
+            if not good:
+                break
+            for p_, v in env.items():
+                if p_ == "self":
+                    continue
+                if p_ in r["toks"]:
+                    good = good and v is r["toks"][p_]
+                elif p_ == "cd_as_force" and name == "__init__":
+                    good = good and v is True
+                else:
+                    good = good and p_ in r["defaults"] and _plain_equal(v, r["defaults"][p_])
+            if name != "__init__":
+                good = good and r["res"] is r["ret"]
+        what = "is SolveUnc.__init__ with cd_as_force=True and nothing else" if name == "__init__" else "only delegates to SolveUnc"
+        ctx.check(good, f"{tag} {what} (every argument, given or defaulted, reaches the parameter of the same name)", c)
+    # every cdforces-specific solver in SolveUnc / _BaseODE / SolveCDF is unreachable when self.cdforces is False
     uses = []
-    for rel in (UNC, BASE):
+    for rel in (UNC, BASE, CDF):
         m = ctx.src.mod(rel)
         for q, f2 in m.funcs.items():
             for n in walk_no_nested(f2):
                 if isinstance(n, ast.Call) and (dotted(n.func) or "").endswith("_cdforces"):
-                    doms = [ast.unparse(a.test).replace(" ", "") for a in ancestors(n) if isinstance(a, ast.If) and
-                            any(n is y for x in a.body for y in ast.walk(x))]
-                    uses.append((q, ast.unparse(n.func), "self.cdforces" in doms))
+                    uses.append((q, ast.unparse(n.func), _unreachable(n, f2, {"self.cdforces": False})))
     ok = bool(uses) and all(u[2] for u in uses)
-    ctx.check(ok, "the damping-as-force solver and generator are reached only under `if self.cdforces`", UNC + ":1", uses)
+    ctx.check(ok, "the damping-as-force solver and generator cannot be reached when self.cdforces is False", UNC + ":1", uses)
+
+
+# ---------------------------------------------------------------------------
+def _alpha_doc(bo, Bp):
+    """alpha = C_od (I + diag(Bp) C_od)^-1 as documented (SolveCDF / the comment in SolveUnc.__init__)"""
+    n = bo.shape[0]
+    return bo @ I.inverse(I._np_eye(None, [n], {}) + I._np_diag(None, [Bp], {}) @ bo)
+
+
+def _offdiag(name, n):
+    return I.NDArr.new((n, n), [F.const(0) if i == j else F.sym(f"{name}_{i}_{j}") for i in range(n) for j in range(n)])
+
+
+def _pc(n=N):
+    return I.Obj(None, "pc", **{c: vec("c" + c, n) for c in ("F", "G", "A", "B", "Fp", "Gp", "Ap", "Bp")})
 
 
 def r5_implicit_update(ctx):
     """V1 = v_part - Bp alpha v_part solves V1 = Fp d + Gp v + Ap (f0 - bo v0) + Bp (f1 - bo V1), alpha = bo (I + Bp bo)^-1"""
     init = ctx.src.func(UNC, "SolveUnc.__init__")
-    bo, Bp = F.sym("bo"), F.sym("Bp")
+    for n, bo, what in ((2, mat("bo", 2, 2), "a generic 2-dof system"), (3, _offdiag("bo", 3), "a 3-dof system with zero-diagonal C_od")):
+        tag = f"SolveUnc.__init__ ({what})"
+        pc = _pc(n)
 
-    def call(node, ev):
-        d = dotted(node.func) or ""
-        if d == "la.solve":
-            a, b = ev.ev(node.args[0]), ev.ev(node.args[1])
-            if is_unknown(a) or is_unknown(b):
-                return a if is_unknown(a) else b
-            return need(b) / need(a)
-        if d == "np.eye":
-            return F.const(1)
-        return NotImplemented
-
-    def sub(node, ev):
-        if utext(node) == "self.pc.Bp[:,None]":
-            return Bp
-        return NotImplemented
-
-    ev = Evaluator(env={"self.bo": bo}, src=ctx.src, call=call, subscript=sub)
-    blk = [st for st in ast.walk(init) if isinstance(st, ast.If) and "self.cdforces" in ast.unparse(st.test)]
-    if not blk:
-        raise AnchorError("SolveUnc.__init__: cdforces block")
-    ev.run(blk[0].body)
-    alpha = ev.env.get("self.pc.alpha")
-    ok = alpha is not None and not is_unknown(alpha) and alpha.equals(bo / (1 + Bp * bo))
-    ctx.check(ok, "SolveUnc.__init__: alpha = bo (I + Bp bo)^-1 (computed as solve(tmp.T, bo.T).T with tmp = I + Bp bo)", blk[0], None if ok else repr(alpha))
-    t = ast.unparse(blk[0]).replace(" ", "")
-    ok = "self.pc.alpha=la.solve(tmp.T,self.bo.T).T" in t and "tmp=np.eye(self.ksize)+Bp*self.bo" in t
-    ctx.check(ok, "SolveUnc.__init__: the transposes make it a right-division (X tmp = bo), Bp scales the rows of bo", blk[0])
-    from . import c08
-    cb = c08._batch_cdforces(ctx)
-    Fd, G, A, B, Fp, Gp, Ap = (c08.COEF[x] for x in ("F", "G", "A", "B", "Fp", "Gp", "Ap"))
-    Bpc = c08.COEF["Bp"]
-    al = c08.BO / (1 + Bpc * c08.BO)
-    for order in (1, 0):
-        d1, v1, dnext, d00, loop = cb[order]
-        if any(x is None or is_unknown(x) for x in (d1, v1, dnext)):
-            ctx.error(f"_solve_real_unc_cdforces (order {order})", loop)
+        def su_coef(it_, args, kwargs, pc=pc):
+            return pc
+        it = I.Interp(ctx, stubs={"pyyeti.ode._utilities.get_su_coef": su_coef, "get_su_coef": su_coef})
+        me = I.Obj(it.cls(UNC, "SolveUnc"), "self", ksize=n, unc=True, systype=I.FLOAT, cdforces=True, bo=bo, m=vec("m", n), b=vec("b", n),
+                   k=vec("k", n), _rb=I.Opaque("_rb"), h=H)
+        for nm in ("_common_precalcs", "_inv_m", "_mk_slices", "get_su_eig"):
+            me.overrides[nm] = lambda it_, args, kwargs: None
+        ok, _ = _guard(ctx, tag, init, lambda: it.call_method(me, "__init__", vec("m", n), vec("b", n), vec("k", n), H, cd_as_force=True))
+        if not ok:
             continue
-        f1 = c08.F1 if order == 1 else c08.F0
-        V1 = v1.subs({"alpha": al})
-        D1 = d1.subs({"alpha": al})
-        rhs_v = Fp * c08.D0 + Gp * c08.V0 + Ap * (c08.F0 - c08.BO * c08.V0) + Bpc * (f1 - c08.BO * V1)
-        ok = V1.equals(rhs_v)
-        ctx.check(ok, f"_solve_real_unc_cdforces (order {order}): the velocity update solves the commented implicit equation "
-                      "V1 = Fp d + Gp v + Ap (f0 - bo v0) + Bp (f1 - bo V1)", loop, None if ok else repr(V1))
-        rhs_d = Fd * c08.D0 + G * c08.V0 + A * (c08.F0 - c08.BO * c08.V0) + B * (f1 - c08.BO * V1)
-        ok = D1.equals(rhs_d)
-        ctx.check(ok, f"_solve_real_unc_cdforces (order {order}): the displacement update is D1 = F d + G v + A (f0 - bo v0) + B (f1 - bo V1)", loop,
-                  None if ok else repr(D1))
-        ok = dnext.subs({"alpha": al}).equals(c08.BO * V1)
-        ctx.check(ok, f"_solve_real_unc_cdforces (order {order}): the damping force carried to the next step is bo V1", loop)
+        got = me.attrs.get("pc")
+        alpha = got.attrs.get("alpha") if isinstance(got, I.Obj) else None
+        if not isinstance(alpha, I.NDArr) or alpha.shape != (n, n):
+            ctx.fail(f"{tag}: pc.alpha is computed when cdforces is set", init, _show(alpha))
+            continue
+        # X (I + diag(Bp) C_od) = C_od  decides  X = C_od (I + diag(Bp) C_od)^-1 : a right division, with Bp scaling the ROWS of C_od
+        lhs = alpha @ (I._np_eye(None, [n], {}) + I._np_diag(None, [pc.attrs["Bp"]], {}) @ bo)
+        ok = _eq(lhs, bo)
+        ctx.check(ok, f"{tag}: alpha (I + diag(Bp) C_od) = C_od, i.e. alpha = C_od (I + Bp C_od)^-1 with the documented order of the matrix "
+                      "products", init, None if ok else _show(alpha))
+    fn = ctx.src.func(UNC, "SolveUnc._solve_real_unc_cdforces")
+    nt = 3
+    for order in (1, 0):
+        tag = f"_solve_real_unc_cdforces (order {order})"
+        pc = _pc()
+        bo = _offdiag("bo", N)
+        pc.attrs["alpha"] = _alpha_doc(bo, pc.attrs["Bp"])
+        it = I.Interp(ctx)
+        me = I.Obj(it.cls(UNC, "SolveUnc"), "self", pc=pc, bo=bo, kdof=slice(None), order=order, slices=True, ksize=N, nonrfsz=N)
+        zero = F.const(0)
+        d, v = I.NDArr.full((N, nt), zero), I.NDArr.full((N, nt), zero)
+        q0, qd0 = vec("q0"), vec("qd0")
+        for r in range(N):
+            d.st.data[d.ix[r * nt]] = q0.flat()[r]
+            v.st.data[v.ix[r * nt]] = qd0.flat()[r]
+        f = mat("f", N, nt)
+        ok, _ = _guard(ctx, tag, fn, lambda: it.call_method(me, "_solve_real_unc_cdforces", d, v, f))
+        if not ok:
+            continue
+        c = pc.attrs
+        good_v = good_d = True
+        for i in range(nt - 1):
+            di, vi, V1, D1 = d[:, i], v[:, i], v[:, i + 1], d[:, i + 1]
+            f0 = f[:, i]
+            f1 = f[:, i + 1] if order == 1 else f[:, i]
+            rhs_v = c["Fp"] * di + c["Gp"] * vi + c["Ap"] * (f0 - bo @ vi) + c["Bp"] * (f1 - bo @ V1)
+            rhs_d = c["F"] * di + c["G"] * vi + c["A"] * (f0 - bo @ vi) + c["B"] * (f1 - bo @ V1)
+            if i == 0:
+                ok = _eq(V1, rhs_v) and _eq(v[:, 0], qd0)
+                ctx.check(ok, f"{tag}: the velocity update solves the commented implicit equation V1 = Fp d + Gp v + Ap (f0 - C_od v0) + Bp (f1 - C_od V1)",
+                          fn, None if ok else _show(V1))
+                ok = _eq(D1, rhs_d) and _eq(d[:, 0], q0)
+                ctx.check(ok, f"{tag}: the displacement update is D1 = F d + G v + A (f0 - C_od v0) + B (f1 - C_od V1)", fn, None if ok else _show(D1))
+            else:
+                good_v = good_v and _eq(V1, rhs_v)
+                good_d = good_d and _eq(D1, rhs_d)
+        ctx.check(good_v and good_d, f"{tag}: the next step starts from the stored displacement and velocity and the damping force carried over is C_od V1 "
+                                     "(the same equations hold for the second step)", fn)
 
 
 def r6_typing(ctx):
